@@ -122,9 +122,51 @@ def drive_and_validate(ctx, zr, eng, name, args, strict, stats, samples):
         stats["runs"].append({k: s[k] for k in s if k != "poolhex"})
 
 
+def conc_stage(ctx, zr, eng, stats, samples):
+    """Atomic visibility under concurrency: one writer, several iterating readers; TLC
+    (ZEngineConc, internal linearization steps) must find an explanation of every read."""
+    d = ctx.sub("conc-" + eng)
+    rounds = "6" if ctx.quick() else "40"
+    nfiles = 1 if ctx.quick() else 4
+    for i in range(nfiles):
+        f = os.path.join(d, "c%d.ndjson" % i)
+        rc, out = V.run(ctx, [zr, "engconc", "-eng", eng, "-o", f, "-rounds", rounds, "-seed", str(ctx.seed * 10 + i),
+                              "-readers", "3", "-commits", "40"], timeout=600, env={"ZR_SCRATCH": d})
+        summ = [json.loads(l[8:]) for l in out.splitlines() if l.startswith("SUMMARY ")]
+        if rc != 0 or not summ:
+            ctx.skipped += 1
+            continue
+        res = V.tlc(ctx, "ZEngineConc", "ZEngineConc.cfg", workers=1, timeout=900, env={"ZR_TRACE": f},
+                    deque=True, heap="4g", tag="conc-%s-%d" % (eng, i))
+        hwm = None
+        for p in res.prints:
+            if p.startswith('<<"HWM"'):
+                hwm = [int(x) for x in p.strip("<>").split(",")[1:]]
+        if res.timed_out or hwm is None:
+            ctx.log("conc validation of %s did not complete; skipped" % f)
+            ctx.skipped += 1
+            continue
+        stats["conc_events"] += summ[0]["events"]
+        stats["conc_reads"] += summ[0]["reads"]
+        stats["conc_reads_overlapping_commit"] += summ[0]["reads_overlapping_a_commit"]
+        stats["segments"] += summ[0]["segments"]
+        if hwm[0] != hwm[1] + 1:
+            events = V.read_ndjson(f)
+            line = hwm[0]          # first line no behaviour could consume
+            s0, seg = V.segment_of(events, line)
+            segf = os.path.join(d, "fail-c%d-%d.ndjson" % (i, line))
+            V.write_ndjson(segf, seg)
+            what = ("%s engine, concurrent writer/readers: no placement of the commit-effect and view-fix points "
+                    "explains line %d %s (a batch was seen partially, a cleared batch was seen, or a view moved)"
+                    % (eng, line, json.dumps(seg[-1], sort_keys=True)[:300]))
+            V.report_failure(ctx, {"engine": eng, "class": "concurrent-visibility", "event": seg[-1].get("ev")},
+                             what, files=[segf], script={"engconc": eng, "seed": ctx.seed * 10 + i})
+            stats["mismatches"] += 1
+
+
 def run(ctx):
     rnd = random.Random(ctx.seed)
-    zr = V.go_build(ctx, files=["engsim.go"])
+    zr = V.go_build(ctx, files=["engsim.go", "engconc.go"])
     # (A) exhaustive model runs + graph dumps
     g_full = os.path.join(ctx.scratch, "g_full.dot")
     r1 = V.tlc(ctx, "MC_ZEngine", "MC_ZEngine.cfg", timeout=600, extra=["-dump", "dot,actionlabels", g_full], tag="mc-full")
@@ -132,7 +174,7 @@ def run(ctx):
     ctx.log("model: %d distinct states, %d transitions" % (r1.distinct, r1.generated))
 
     stats = dict(events=0, segments=0, reads=0, mismatches=0, info_mismatches=0, edges_covered=0,
-                 graph_edges=0, steps=0, runs=[])
+                 graph_edges=0, steps=0, runs=[], conc_events=0, conc_reads=0, conc_reads_overlapping_commit=0)
     samples = []
     seed = str(ctx.seed)
     if ctx.quick():
@@ -168,6 +210,8 @@ def run(ctx):
                        ["-random", "100" if ctx.quick() else "1000", "-len", "80", "-seed", seed,
                         "-pool", str([1, 4, 2, 3, 5][ctx.seed % 5]), "-indep"],
                        True, stats, samples)
+    for eng in ("pebble", "mem"):
+        conc_stage(ctx, zr, eng, stats, samples)
     if not ctx.quick():
         # informational only: RocksDB through the dependency shim is not the patched 6.4.6
         try:
@@ -186,7 +230,10 @@ def run(ctx):
         model_runs=[dict(cfg="MC_ZEngine.cfg", **r1.summary())],
         graph_edges=stats["graph_edges"], graph_edges_replayed=stats["edges_covered"],
         events_validated=stats["events"], read_results_checked=stats["reads"],
-        mismatching_segments=stats["mismatches"], rocksdb_shim_info_mismatches=stats["info_mismatches"],
+        mismatching_segments=stats["mismatches"],
+        concurrent_stage=dict(events=stats["conc_events"], iterator_reads=stats["conc_reads"],
+                              reads_overlapping_a_commit=stats["conc_reads_overlapping_commit"],
+                              spec="ZEngineConc: begin/end of every call logged, effect/view-fix are internal steps"), rocksdb_shim_info_mismatches=stats["info_mismatches"],
         driver_runs=stats["runs"],
         rule="every edge of TLC's state graph of MC_ZEngine is executed on the real engine from a state "
              "reached by real operations; on the first visit of each distinct committed content the full "
